@@ -528,7 +528,13 @@ func (e *erasureCodingPartStore) newPartReader(ctx context.Context, tx database.
 				_ = pw.CloseWithError(fmt.Errorf("insufficient shards in stripe %d", stripeIndex))
 				return
 			}
-			if err := enc.ReconstructData(shards); err != nil {
+			// A healing read rewrites every missing shard, parity shards included,
+			// so those have to be reconstructed as well.
+			reconstruct := enc.ReconstructData
+			if healMissing {
+				reconstruct = enc.Reconstruct
+			}
+			if err := reconstruct(shards); err != nil {
 				closeHealingWriters(err)
 				_ = pw.CloseWithError(err)
 				return
